@@ -5,7 +5,7 @@ CAND = "/verif/work/cand"; RES = "/verif/work/seed_results"; OUT = "/verif/seede
 props = {json.loads(l)["id"]: json.loads(l) for l in open("/verif/properties.jsonl")}
 rows = []
 for p in sorted(os.listdir(CAND)):
-    for k in (1, 2, 3, 4):
+    for k in (1, 2, 3, 4, 5, 6):
         if not os.path.exists(f"{CAND}/{p}/m{k}.diff"):
             continue
         sid = f"{p}-m{k}"
@@ -19,9 +19,17 @@ for p in sorted(os.listdir(CAND)):
         c = dict(re.findall(r"(\w+_rc)=(\d+)", conf))
         suite = re.findall(r"test result: ok\. (\d+) passed; 0 failed", conf)
         res = open(f"{RES}/{sid}.txt").read() if os.path.exists(f"{RES}/{sid}.txt") else ""
-        m = re.search(r"== \S+ (\w+) rc=(\d+)", res)
+        secs = re.split(r"^(?=== )", res, flags=re.M)
+        secs = [x for x in secs if x.startswith("== ")]
+        m = re.search(r"== \S+ (\w+) rc=(\d+)", secs[0]) if secs else None
         rc = int(m.group(2)) if m else None
-        whats = sorted(set(re.findall(r"^\s+\d+\s{3}(.*)$", res, re.M)))[:4]
+        whats = sorted(set(re.findall(r"^\s+\d+\s{3}(.*)$", secs[0] if secs else "", re.M)))[:4]
+        other = []
+        for sec in secs[1:]:
+            m2 = re.search(r"== \S+ (\w+) rc=(\d+)", sec)
+            if m2:
+                other.append({"check": m2.group(1), "exit_code": int(m2.group(2)),
+                              "what": sorted(set(re.findall(r"^\s+\d+\s{3}(.*)$", sec, re.M)))[:3]})
         files = sorted(set(re.findall(r"^[+-]{3} [ab]/(\S+)", open(f"{d}/patch.diff").read(), re.M)))
         first = next((l.strip() for l in notes.splitlines() if l.strip()), "")
         NOTES = {
@@ -35,6 +43,20 @@ for p in sorted(os.listdir(CAND)):
             "C04-m4": "BREAKS C02, NOT C04: next_id() itself makes the id present (it shows up in keys() before any add), so the later add() is an add on a present vertex; "
                       "reported by ./check C02 and C05 runs (alive set differs right at the next_id call)",
         }
+        NOTES.update({
+            "C03-m5": "BREAKS C02, NOT C03: the 16th member is not listed, survives its group's collection (keys() keeps it), so the later add() is an add on a PRESENT vertex "
+                      "and its old data/edges are what C03 demands; reported by ./check C02 (group partition at the bind, alive set)",
+            "C03-m6": "BREAKS C02/C06, NOT C03: the 13th/14th group is silently not formed, its vertices are never collected and stay present; reported by ./check C02 and C06",
+            "C04-m5": "BREAKS C02/C06, NOT C04: as C03-m6 (slots 14/15 never handed out): the vertices stay present, so add() on them rightly changes nothing",
+            "C04-m6": "BREAKS C02, NOT C04: as C03-m5 (the 16th member is turned away and survives): add() on a present vertex rightly changes nothing",
+            "C05-m6": "BREAKS C01/C02/C06, NOT C05: bind() with 12 groups alive makes both endpoints ABSENT (keys() no longer lists them), so next_id() handing out their ids "
+                      "is right by C05's own wording (\"not present at that moment\"); reported by ./check C02 (alive set) and C06",
+            "C12-m5": "BREAKS THE OBSERVATION ITSELF: keys() omits the last slot, so every property's alive set is wrong as soon as id capacity-1 is used; the judge stops "
+                      "following a history whose alive set left the reference (a C02 report) and therefore does not blame merge(); reported by ./check C02",
+            "C07-m6": "OUT OF DOMAIN: needs a slice of 18 or more reachable vertices; C13 limits slices to 14 vertices precisely because the rebuilt graph of a larger slice "
+                      "stays within the group limits only for some edge orders (the same slice panics on the unchanged code when the cross-group edge comes first), "
+                      "so no property promises that such a slice completes",
+        })
         note = NOTES.get(sid, "")
         meta = {"id": sid, "property": p, "property_title": props[p]["title"], "summary": first[:300], "files_changed": files,
                 "needs_to_manifest": "see notes.txt (written by the sub-agent that produced the change)",
@@ -44,11 +66,12 @@ for p in sorted(os.listdir(CAND)):
                                                   "command": "tools/confirm_seed.sh"},
                 "check_run": {"command": f"tools/seedrun.sh {sid} seeded/{sid}/patch.diff {p}   (quick tier, scratch worktree of /repo + scratch copy of /verif)",
                               "exit_code": rc, "reported": rc == 1, "what": whats},
+                "other_checks_run": other,
                 "note": note}
         json.dump(meta, open(f"{d}/meta.json", "w"), indent=1, ensure_ascii=False)
-        rows.append((sid, p, "reported (exit 1)" if rc == 1 else "silent (exit 0)" if rc == 0 else f"rc={rc}", "; ".join(w.split("  [")[0] for w in whats)[:150], ", ".join(sorted({w.split("[")[-1].rstrip("]").split(" N=")[0] for w in whats if "[" in w}))[:90], note[:80]))
+        rows.append((sid, p, "reported (exit 1)" if rc == 1 else ("silent (exit 0)" + "".join(f"; ./check {o_['check']} reports it" for o_ in other if o_["exit_code"] == 1)) if rc == 0 else f"rc={rc}", "; ".join(w.split("  [")[0] for w in whats)[:150], ", ".join(sorted({w.split("[")[-1].rstrip("]").split(" N=")[0] for w in whats if "[" in w}))[:90], note[:80]))
 with open(f"{OUT}/RESULTS.md", "w") as f:
-    f.write("# Seeded changes and what the checks said (quick tier)\n\nEach change was written by a sub-agent that saw only the property text (m3/m4: also short descriptions of m1/m2 of the same property, to avoid duplicates); each is confirmed (builds, suite passes, "
+    f.write("# Seeded changes and what the checks said (quick tier)\n\nEach change was written by a sub-agent that saw only the property text (m3-m6: also short descriptions of the earlier ones for the same property, to avoid duplicates; m5/m6 had to need a LARGE state: 10+ groups, 12+ members, ids above 100, 25+ calls, ...); each is confirmed (builds, suite passes, "
             "demo fails with / passes without). `tools/seedrun.sh <id> seeded/<id>/patch.diff <Cxx>` reproduces a row.\n\n| id | property | check result | what was reported | found by | note |\n|---|---|---|---|---|---|\n")
     for r in rows:
         f.write("| " + " | ".join(r) + " |\n")
